@@ -235,6 +235,21 @@ def _udp(exe, r, run, stats, w, sim, wit):
                                   "%d datagrams were sent in reply to a malformed one" % len(wires))
             elif pv:
                 stats["wellformed_delivered"] += 1
+            # the same rule with the independent decoder's verdict (vf/refs/coapwire.py): what
+            # RFC 7252 makes malformed beyond doubt must not run a handler even if the
+            # library's parser lets it through ('either' zones are not judged)
+            rv = cw.verdict(data, "udp")[0]
+            if rv == "reject":
+                stats["reference_malformed_delivered"] = stats.get(
+                    "reference_malformed_delivered", 0) + 1
+                handlers = [e for e in evs if e["e"] in ("req", "rsp", "ping", "pong")]
+                if handlers and not (pv and not pv[0]["ok"]):
+                    run.violation("malformed-input-reached-handler/%s/%s/reference-verdict" %
+                                  (handlers[0]["e"], "to-server" if to == SRV else "to-client"),
+                                  dict(wit, input=data.hex(), mutation=kind),
+                                  "the reference decoder rejects %s (%s), the library parsed it and "
+                                  "a %s handler ran" % (data.hex()[:80], cw.verdict(data, "udp")[1],
+                                                       handlers[0]["e"]))
     stats["hostile_datagrams"] += delivered
     # let every timer of the valid and the damaged exchanges run out
     sim.run(until=sim.elapsed() + 400000, quiesce=False)
